@@ -125,10 +125,12 @@ def main():
             target = meta.get('property', '?')
             hit = dict((p, v[len('VIOLATION '):]) for p, v in res.items() if v.startswith('VIOLATION'))
             verdict = 'detected by the target check' if target in hit else ('detected by another check' if hit else 'MISSED')
+            if 'error' in res:
+                verdict = 'not applicable to the current tree (' + str(meta.get('port_note', res['error']))[:200] + ')'
             needs = str(meta.get('needs_to_manifest', meta.get('summary', '')))[:220].replace('|', '/').replace('\n', ' ')
             lines.append('| %s | %s | %s | %s | %s |' % (i, target, verdict, '; '.join('%s: %s' % kv for kv in sorted(hit.items())) or '-', needs))
         open(os.path.join(VERIF, 'seeded', 'RESULTS.md'), 'w').write('\n'.join(lines) + '\n')
-        det = dict((i, dict((p, v[len('VIOLATION '):]) for p, v in res.items() if v.startswith('VIOLATION'))) for i, res in sorted(t.items()))
+        det = dict((i, dict((p, v[len('VIOLATION '):]) for p, v in res.items() if v.startswith('VIOLATION'))) for i, res in sorted(t.items()) if 'error' not in res)
         json.dump(det, open(os.path.join(VERIF, 'seeded', 'detected.json'), 'w'), indent=1, sort_keys=True)
         print('\n'.join(lines[:8]))
     elif len(sys.argv) >= 2 and sys.argv[1] == 'detect':
